@@ -482,3 +482,97 @@ def run(ctx):
     _run_main2(ctx)
     extras2(ctx)
     ctx.flush()
+
+
+# ---- extras3 (hx_r7a, round 7): array-valued settings replaced by RELATIVES of the current value --------------------------------------------------
+#
+# The argument makers of _c04_ops now remember the value the object holds (related_array: same count and ends with another interior -- linear <->
+# geometric spacing over the same range, one interior entry moved, the interior permuted --, every entry 3e-7 relative away, exact repeat; by-range
+# limits: 3e-7 away, the ends and count of the current frequencies); the random and exhaustive histories above draw them.  This is the directed
+# part: for every operation that sets the response periods or the smoothing frequencies and every kind of relative, one history
+# set (regular grid) -> read -> set (relative) -> compare with a fresh object -> read -> set (another relative) -> compare, also across different
+# operations (grid set by gen_response_spectrum(response_times=...), relative assigned through the property).  Ordinary operations of the existing
+# kinds: the state-machine comparison (cache_history) runs on every state as everywhere else.
+
+def extras3(ctx):
+    rng = ctx.rng
+    rows, _ = table_rows()
+    quick = ctx.tier == 'quick'
+    p_ops = [r for r in ('response_times=', 'gen_response_spectrum/given', 'generate_response_spectrum/given', 'response_series/given') if r in rows]
+    f_ops = [r for r in ('smooth_fa_freqs=', 'smooth_fa_frequencies=', 'gen_smooth_fa_spectrum/given') if r in rows]
+    p_reads, f_reads = ['s_a', 's_v', 's_d', READALL], ['smooth_fa_spectrum', READALL]
+
+    def grid(lo, hi, n):
+        g = np.linspace(lo, hi, n) if rng.random() < 0.5 else np.geomspace(lo, hi, n)
+        return [float(x) for x in g]
+
+    def step(h, name, args):
+        ok = h.do(name, args, rng=rng) if args is not None else h.do(name, rng=rng)
+        if not ok:
+            ctx.hist('op-raised:%s:%s' % h.failed)
+            return False
+        if name not in QUANTS and name != READALL:
+            check_state(ctx, h)
+        return True
+
+    def done(h, tag):
+        ctx.hist('related setting/' + tag)
+        ctx.count_case(('x3', tuple(h.start['values'][:8]), repr(h.ops)[:400]), h.nontrivial,
+                       sample={'class': h.cls, 'history': [o[0] for o in h.ops], 'family': tag} if ctx.evaluations % 53 == 0 else None)
+
+    for rnd in range(1 if quick else 8):
+        for first in p_ops + f_ops:
+            is_p = first in p_ops
+            group, key, reads = (p_ops, 'periods', p_reads) if is_p else (f_ops, 'freqs', f_reads)
+            for kind in O.REL_KINDS:
+                cls = 'Signal' if (not is_p and rng.random() < 0.3) else 'AccSignal'
+                grp = [g for g in group if cls == 'AccSignal' or g in O.SIGNAL_METHODS]
+                base = start_args(rng, rng.choice([48, 64, 77]), rng.choice([0.01, 0.02, 0.005]))
+                h = History(cls, *base)
+                n = rng.randint(4, 16)
+                g0 = grid(round(rng.uniform(0.15, 0.5), 3), round(rng.uniform(1.0, 4.0), 3), n) if is_p else grid(round(rng.uniform(0.2, 1.0), 3), round(rng.uniform(8, 25), 3), n)
+                ok = step(h, first if first in grp else grp[0], {key: g0}) and step(h, rng.choice(reads), None)
+                for kd in (kind, rng.choice(O.REL_KINDS), rng.choice(O.REL_KINDS)):
+                    if not ok:
+                        break
+                    cur = h.s.response_times if is_p else h.s.smooth_fa_freqs
+                    rel = O.related_array(rng, cur, kd)
+                    if rel is None:
+                        continue
+                    ctx.hist('related setting/kind=' + kd)
+                    ok = step(h, rng.choice(grp), {key: rel}) and step(h, rng.choice(reads), None)
+                done(h, ('response periods' if is_p else 'smoothing frequencies') + ' replaced by a relative')
+        # by-range / point-count setters against frequencies set by value, and against the limits used before
+        for name in [r for r in ('set_smooth_fa_frequecies_by_range', 'smooth_freq_range=', 'smooth_freq_points=') if r in rows]:
+            for variant in ('ends and count of the current frequencies', 'limits 3e-7 away', 'same limits again after frequencies set by value'):
+                base = start_args(rng, rng.choice([48, 64]), rng.choice([0.01, 0.02]))
+                h = History('AccSignal' if rng.random() < 0.7 else 'Signal', *base)
+                n = rng.randint(4, 9)
+                lo, hi = round(rng.uniform(0.2, 1.0), 3), round(rng.uniform(8, 25), 3)
+
+                def by(limits, npts, name=name):
+                    return {'limits': list(limits), 'n_points': npts} if name == 'set_smooth_fa_frequecies_by_range' else \
+                           {'limits': list(limits)} if name == 'smooth_freq_range=' else {'points': npts}
+                if variant == 'ends and count of the current frequencies':
+                    ok = step(h, rng.choice(f_ops[:2]), {'freqs': [float(x) for x in np.linspace(lo, hi, n)]}) and step(h, 'smooth_fa_spectrum', None)
+                    cur = np.asarray(h.s.smooth_fa_freqs, dtype=float)
+                    ok = ok and step(h, name, by((float(cur[0]), float(cur[-1])), len(cur))) and step(h, 'smooth_fa_spectrum', None)
+                elif variant == 'limits 3e-7 away':
+                    ok = step(h, 'set_smooth_fa_frequecies_by_range', {'limits': [lo, hi], 'n_points': n}) and step(h, 'smooth_fa_spectrum', None)
+                    ok = ok and step(h, name, by((lo * (1 + 3e-7), hi * (1 - 3e-7)), n)) and step(h, 'smooth_fa_spectrum', None)
+                else:
+                    ok = step(h, 'set_smooth_fa_frequecies_by_range', {'limits': [lo, hi], 'n_points': n}) and step(h, 'smooth_fa_spectrum', None)
+                    cur = np.asarray(h.s.smooth_fa_freqs, dtype=float)
+                    ok = ok and step(h, rng.choice(f_ops), {'freqs': O.related_array(rng, cur, rng.choice(O.REL_KINDS[:2]))}) and step(h, 'smooth_fa_spectrum', None)
+                    ok = ok and step(h, name, by((lo, hi), n)) and step(h, 'smooth_fa_spectrum', None)
+                done(h, name + ': ' + variant)
+        ctx.flush()
+
+
+_run_main3 = run
+
+
+def run(ctx):
+    _run_main3(ctx)
+    extras3(ctx)
+    ctx.flush()
